@@ -49,8 +49,8 @@ EXTENDS Integers, Sequences, FiniteSets, TLC
 
 CONSTANTS Deviations,   \* named deviations, see below
           ReqModes,     \* the req modes taken (all of Reqs, unless a run only needs the predictions for some)
-          AllFixed      \* TRUE: every variant has a method for every view fixed in the design; FALSE (quick tier): the variants
-                        \* other than [first, base] only fix the default view (the service method still chooses every view)
+          AllFixed      \* TRUE: every variant also has a method for every view fixed in the design; FALSE (quick tier): only the
+                        \* [first, base] variants have them (in every variant the service method chooses every view)
 (* named deviations (what the code is known or suspected to do instead):
      views.leak_all_attributes                the server renders every attribute whatever the view (vacuity guard)
      client.required_user_type_nil_deref      the client converts the decoded body BEFORE validating it and takes a required
@@ -133,7 +133,7 @@ DeclViews(k, t) ==
       df == SelectSeq(vs, LAMBDA v : v.name = "default")
   IN CASE k.order = "first" -> df \o nd [] k.order = "last" -> nd \o df [] OTHER -> nd
 ViewsOf(k) == {v.name : v \in Range(DeclViews(k, "T"))} \cup {"default"}
-FixedViews(k) == IF AllFixed \/ (k.order = "first" /\ k.req = "base") THEN ViewsOf(k) ELSE {"default"}
+FixedViews(k) == IF AllFixed \/ (k.order = "first" /\ k.req = "base") THEN ViewsOf(k) ELSE {}
 OwnView(a) == IF a.own = "-" THEN "default" ELSE a.own
 \* the entries of view v of type t with every nested rendering resolved to <<type, view>>
 ViewTable(k, t, v) ==
